@@ -220,7 +220,7 @@ class _VisitorBasedContext:
         *,
         code: Error = ErrorCode.incompatible_call,
         node: Optional[ast.AST] = None,
-        detail: Optional[str] = ...,
+        detail: Optional[str] = None,
         replacement: Optional[Replacement] = None,
     ) -> None:
         if node is None:
